@@ -49,6 +49,10 @@ func (b *au915Band) GetPingSlotFrequency(devAddr lorawan.DevAddr, beaconTime tim
 }
 
 func (b *au915Band) GetRX1ChannelIndexForUplinkChannelIndex(uplinkChannel int) (int, error) {
+	if uplinkChannel < 0 {
+		return 0, errors.New("lorawan/band: invalid channel")
+	}
+
 	return uplinkChannel % 8, nil
 }
 
